@@ -110,9 +110,44 @@ def mut_term(case, obs):
         fc_term(F), gamma_term(case["gamma"]), tensor_term(X), cevents(dec_events(obs["events"])), cfmat(decarr(obs["V"], 2)), dcheck))
 
 
+def gen_variant_case(rng):
+    from harness.c01 import SELS
+    sel = rng.choice(SELS); y = rng.choice([1, 1, 2])
+    nd = y + (1 if "-to-" in sel else 0)
+    n = 1 + 2 * nd + rng.choice([1, 2, 4]); v = rng.choice([1, 2, 3])
+    X = [[gens.dyadic(rng) for _ in range(v)] for _ in range(n)]
+    ranks = list(range(n)); rng.shuffle(ranks)
+    return {"api": "variant", "sel": sel, "y": y, "cx": rng.choice(["bin", "exp"]), "CR": (1.0).hex(), "F": rng.choice([0.5, 2.0, 0.25]), "gamma": None,
+            "repair": "bounce-back", "X": enc(np.array(X)), "ranks": ranks, "seed": rng.randrange(2 ** 31), "k": nd}
+
+
+def run_variant_unbounded(case):
+    from pymoode.operators.variant import DifferentialVariant
+    from pymoo.core.population import Population
+    from pymoo.core.problem import Problem
+    X = decarr(case["X"], 2)
+    dv = DifferentialVariant(variant="DE/%s/%d/%s" % (case["sel"], case["y"], case["cx"]), CR=1.0, F=case["F"], gamma=None)
+    pop = Population.new("X", X.copy())
+    for ind, r in zip(pop, case["ranks"]):
+        ind.set("rank", r)
+    prob = Problem(n_var=X.shape[1], n_obj=1, xl=None, xu=None)
+    seen = {}
+    orig = dv.de_mutation.do
+
+    def do(problem, pop_, parents=None, **kw):
+        seen["P"] = np.asarray(parents).tolist()
+        return orig(problem, pop_, parents, **kw)
+    dv.de_mutation.do = do
+    np.random.seed(case["seed"])
+    with Recorder() as rec:
+        off = dv.do(prob, pop, len(pop))
+    return {"V": enc(off.get("X")), "trials": enc(off.get("X")), "d": None, "events": enc_events(rec.events), "frame": bool(np.array_equal(pop.get("X"), X)),
+            "n_parents": dv.n_parents, "P": seen.get("P")}
+
+
 class C10(Check):
     ID = "C10"
-    IMPORTS = "From PV Require Import Model.Mutate."
+    IMPORTS = "From PV Require Import Model.Repair Model.Mutate Model.Cross Model.Select Model.Variant."
     RULE = ("DEM.de_mutation(X, return_differentials=True) and DEM.do on an unbounded problem; 3/5/7 parents, F scalar (0, .5, 2, 7) / range / None, "
             "gamma None/0/1e-4/.5/1.9, dyadic and continuous parents, recorded and boundary-scripted draws; compared bit-exactly incl. order of additions; "
             "non-trivial = F dithered or jitter on or more than one difference; distinct by hash")
@@ -122,32 +157,49 @@ class C10(Check):
 
     def gen(self, n):
         for _ in range(n):
-            yield gen_mut_case(self.rng)
+            yield gen_variant_case(self.rng) if self.rng.random() < 0.25 else gen_mut_case(self.rng)
 
     def run(self, case):
-        return run_mut(case)
+        return run_variant_unbounded(case) if case["api"] == "variant" else run_mut(case)
 
     def oracle(self, case, obs):
         if not obs["frame"]:
             return "C10-frame: parent vectors were modified"
         if obs["n_parents"] != 1 + 2 * case["k"]:
             return "C10-nparents: n_parents=%d for %d difference vectors" % (obs["n_parents"], case["k"])
+        if case["api"] == "variant":
+            X = decarr(case["X"], 2); P = np.array(obs["P"]); V = decarr(obs["V"], 2)
+            if P.shape != (len(X), 1 + 2 * case["k"]):
+                return "C10-variant-parents: DE/%s/%d selects %s parents per mating, expected %d" % (case["sel"], case["y"], P.shape[1:], 1 + 2 * case["k"])
+            ref = X[P[:, 0]] + case["F"] * sum(X[P[:, 2 * j - 1]] - X[P[:, 2 * j]] for j in range(1, case["k"] + 1))
+            if not np.allclose(V, ref, rtol=0, atol=1e-9):
+                return "C10-variant-formula: DE/%s/%d/%s with CR=1, scalar F: offspring differ from base + F * sum of differences" % (case["sel"], case["y"], case["cx"])
+            return None
         X = np.array([decarr(m, 2) for m in case["X"]])
         F = tuple(case["F"]) if isinstance(case["F"], list) else case["F"]
         return mut_oracle(F, case["gamma"], X, dec_events(obs["events"]), decarr(obs["V"], 2), None if obs["d"] is None else decarr(obs["d"], 2))
 
     def coq(self, case, obs):
+        if case["api"] == "variant":
+            from harness.c01 import variant_term
+            return variant_term(case, obs, bounds=False)
         return mut_term(case, obs)
 
     def nontrivial(self, case, obs):
+        if case["api"] == "variant":
+            return True
         return case["k"] > 1 or case["gamma"] is not None or not isinstance(case["F"], float)
 
     def classes(self, case, obs):
+        if case["api"] == "variant":
+            return ["variant-string", case["sel"], "y=%d" % case["y"]]
         F = case["F"]
         return ["k=%d" % case["k"], "F-none" if F is None else "F-range" if isinstance(F, list) else "F-scalar",
                 "jitter" if case["gamma"] is not None else "no-jitter", case["api"]] + (["scripted-draws"] if "rand_values" in case else [])
 
     def explain(self, case, obs):
+        if case["api"] == "variant":
+            return None
         X = [decarr(m, 2) for m in case["X"]]
         F = tuple(case["F"]) if isinstance(case["F"], list) else case["F"]
         return eval_print(self.ID, self.IMPORTS, ["de_mutation (N:=Fn) %s %s %s %s" % (fc_term(F), gamma_term(case["gamma"]), tensor_term(X), cevents(dec_events(obs["events"])))])
